@@ -42,8 +42,12 @@ func vpH_C16_stats() {
 		a = g.batch("A", 1, 1, []int{3, 4, 5, 9})
 		b = g.batch("B", 0, 1, []int{5, 9})
 	} else {
+		maxB := 1
+		if vpThorough() {
+			maxB = 2
+		}
 		a = g.batch("A", 1, 2, []int{2, 3, 4, 5, 6, 9})
-		b = g.batch("B", 0, 1, []int{2, 5, 9})
+		b = g.batch("B", 0, maxB, []int{2, 5, 9})
 	}
 	g.done()
 	vpSetLengths(a)
